@@ -422,9 +422,11 @@ func writeComputedFieldExpression(w *formatting.IndentedWriter, expression dsl.E
 				if t.Operator != dsl.UnaryOpNegate {
 					panic(fmt.Sprintf("unexpected unary operator %d", t.Operator))
 				}
-				w.WriteString("-(")
+				// parenthesised as a whole: in the target language '**' / '^' binds tighter than a leading minus,
+				// in yardl expressions the minus belongs to the operand
+				w.WriteString("(-(")
 				self.Visit(t.Expression, tailWrapper{})
-				w.WriteString(")")
+				w.WriteString("))")
 			})
 		case *dsl.BinaryExpression:
 			tail.Run(func() {
